@@ -34,7 +34,7 @@ CHECKS = {
     "C04": {
         "scenarios": [{"name": "ledger"}, {"name": "bank"}],
         "accept": ["history-replay:", "nonneg:", "conversion:amount:pip10", "transfer:"],
-        "technique": "Lean: AddToBalance/SubFromBalance change the column sum by exactly their amount; a transfer changes its asset's supply by minus what went to the burn address and nothing else. Tie: era-crossing lock-step chain; monitor recomputes every balance from the recorded history + scheduled adjustments after every block",
+        "technique": "Lean: AddToBalance/SubFromBalance change the column sum by exactly their amount; a transfer changes its asset's supply by minus what went to the burn address and nothing else; exact effect on EVERY (address, asset) cell of an executed batch (transfers with change outputs, ordinary conversions, bank-era requests: batchDelta), of the bank pass (yield + refund per request), of FCT burns, miner / staking-record rewards, developer rewards and the mint — nobody else's balance moves. Tie: era-crossing lock-step chain; monitor recomputes every balance from the recorded history + scheduled adjustments after every block",
         "assumptions": [ORACLES, "block-level sum of all event kinds is checked by the monitor, proved only per event kind (transfer, rejected batch)"],
         "design_ref": "DESIGN.md §7 C04",
     },
@@ -111,21 +111,21 @@ CHECKS = {
     "C15": {
         "scenarios": [{"name": "ledger"}, {"name": "aligned"}],
         "accept": ["issuance:", "history-replay:old-burn", "history-replay:burn", "history-replay:mint"],
-        "technique": "Lean: regenerated developer table sums to 100 % / 2000 PEG (x144), mint table shape, activation order; payouts, mint and zeroings are identity off their heights; kernel-checked witness that the old-burn zeroing stops at the first non-zero asset. Tie: lock-step chain crossing every activation with funds on the special addresses; chains whose developer-reward / 2.0.2 activation is a multiple of 144 (aligned with the payout cadence); the last asset of the ticker list sent to the burn address before its zeroing; schedule monitor",
+        "technique": "Lean: regenerated developer table sums to 100 % / 2000 PEG (x144), mint table shape, activation order; payouts, mint and zeroings are identity off their heights; kernel-checked witness that the old-burn zeroing stops at the first non-zero asset; developer payout and mint exact for every address and asset. Tie: lock-step chain crossing every activation with funds on the special addresses; chains whose developer-reward / 2.0.2 activation is a multiple of 144 (aligned with the payout cadence); the last asset of the ticker list sent to the burn address before its zeroing; schedule monitor",
         "assumptions": [ORACLES],
         "design_ref": "DESIGN.md §7 C15",
     },
     "C16": {
         "scenarios": [{"name": "payouts"}, {"name": "ledger"}, {"name": "bank"}],
         "accept": ["payouts:", "refund:", "bank:", "history-replay:balances-differ:bank-"],
-        "technique": "Lean: bank pass of a block — PEG supply grows by exactly the sum of Payouts over the requests, which is at most the bank; bank row gets used = sum of yields, requested = total (recordPegRequests level, genuine PEG requests); Payouts: limit, full if fits, exact when over, proportional; refund: yield*pegRate + refund*srcRate <= input*srcRate. Tie: ConversionSupplySet / Refund vs the model; bank-era chains with requests below / around / above the bank, ungraded blocks, rejected requests; refund monitor on every executed PEG request (recorded refund = floor((requested - paid)*peg/src))",
+        "technique": "Lean: bank pass of a block — PEG supply grows by exactly the sum of Payouts over the requests, which is at most the bank; bank row gets used = sum of yields, requested = total (recordPegRequests level, genuine PEG requests); Payouts: limit, full if fits, exact when over, proportional; refund: yield*pegRate + refund*srcRate <= input*srcRate; paying a request credits exactly yield (PEG) + Refund(input, yield) (source asset) to the requester and records both in its history row, for every address and asset. Tie: ConversionSupplySet / Refund vs the model; bank-era chains with requests below / around / above the bank, ungraded blocks, rejected requests; refund monitor on every executed PEG request (recorded refund = floor((requested - paid)*peg/src))",
         "assumptions": ["request keys are distinct (Go map keys)", "bank is a uint64"],
         "design_ref": "DESIGN.md §7 C16",
     },
     "C17": {
         "scenarios": [{"name": "ledger"}, {"name": "bank"}],
         "accept": ["history-replay:", "paging:", "holding:"],
-        "technique": "Lean: pages at offsets 0, 50, ... partition any ordered result; arrival records pending; rejected batch has no effect; status update hits exactly the rows of the hash; kernel-checked witness that an unconvertible amount stays pending; otherwise a held batch is resolved by the first rated block (partial theorem). Tie: lock-step chain; monitor replays the whole history (+ scheduled adjustments) to the balances after every block",
+        "technique": "Lean: pages at offsets 0, 50, ... partition any ordered result; arrival records pending; rejected batch has no effect; status update hits exactly the rows of the hash; kernel-checked witness that an unconvertible amount stays pending; otherwise a held batch is resolved by the first rated block (partial theorem); the history row of an executed conversion carries the amount credited, the row of a paid PEG request carries yield and refund (the amounts the balance theorems of C04 / C16 show were credited). Tie: lock-step chain; monitor replays the whole history (+ scheduled adjustments) to the balances after every block",
         "assumptions": [ORACLES, "API paging is modelled as LIMIT/OFFSET over a fixed ordered list"],
         "design_ref": "DESIGN.md §7 C17",
     },
